@@ -214,6 +214,9 @@ impl Sim for StoreSim {
         let (capacity, filler) = match (kind, ctx.mode.as_str()) {
             ("C10", "threshold") => (*rng.pick(&[1700usize, 1638, 1640, 3000]), rng.urange(1630, 1640)),
             ("C10", _) => (rng.urange(2, 8), 0),
+            // C02: in a fifth of the runs the store can hold exactly as many records as the plan has keys, so a
+            // restart can find it filled to capacity
+            ("C02", _) if rng.chance(1, 5) => (n_keys, 0),
             _ => (16 * 1024, 0),
         };
         let probe_prefixes = match (kind, ctx.tier) {
